@@ -84,8 +84,18 @@ def programs(ctx):
         [[O("Join", "p", to="q"), O("Fulfill", "q", kind="cap")],
          [O("Join", "r", to="p"), O("Client", "r", "f0", "x1"), O("ReleaseClients", "r"), O("CCall", h="x1")]],
     ]
+    chains += [
+        # joining onto a promise that is itself waiting to complete its Join (a pipelined call is still inside its pipeline caller)
+        [[O("PSend", "p", "f0")], [O("Join", "p", to="q")], [O("Join", "r", to="p"), O("Fulfill", "q", kind="cap"), O("PSend", "r", "f0")]],
+        [[O("PSend", "p", "f0"), O("PSend", "p", "f0")], [O("Join", "p", to="q"), O("Reject", "q")], [O("Join", "r", to="p"), O("Struct", "r")]],
+        # joining onto a promise whose resolution is pending (Fulfill waits for a pipelined call)
+        [[O("PSend", "p", "f0")], [O("Fulfill", "p", kind="cap")], [O("Join", "r", to="p"), O("PSend", "r", "f0")]],
+    ]
+    # three-thread race programs: depth-first enumeration changes late decisions first; random schedules reach early switches
+    cb = 400 if ctx.quick else 5000
     for i, c in enumerate(chains):
-        progs.append({"id": "chain-%d" % i, "threads": c})
+        progs.append({"id": "chain-%d" % i, "threads": c, "budget": cb})
+        progs.append({"id": "chain-%d-rnd" % i, "threads": c, "budget": cb, "mode": "rnd"})
     pairs = [(r, c) for r in resolvers for c in callers]
     rng.shuffle(pairs)
     for i, (r, c) in enumerate(pairs[: (60 if ctx.quick else len(pairs))]):
